@@ -281,14 +281,18 @@ def translucent(draw, fg_rgb, css4=False):
 
 
 @st.composite
-def translucent_near(draw, text_rgb, bg_rgb):
+def translucent_near(draw, text_rgb, bg_rgb, css4=False):
     """Translucent spelling whose composite over bg_rgb is (about) text_rgb, so constructed
     near-threshold pairs stay near their threshold. Returns (arg_encoded, kind)."""
     a_txt = draw(st.sampled_from(["0.5", "0.6", "0.75", "0.8", "0.9", "0.95", "0.99", "1", "1.0"]))
     a = float(a_txt)
     fg = tuple(int(min(255, max(0, round(bg_rgb[k] + (text_rgb[k] - bg_rgb[k]) / a)))) for k in range(3))
-    kind = draw(st.sampled_from(["rgba", "hsla", "tuple4", "list4"]))
+    kind = draw(st.sampled_from(["rgba", "hsla", "tuple4", "list4"] + (["rgb4-comma", "rgb4-slash"] if css4 else [])))
     r, g, b = fg
+    if kind == "rgb4-comma":
+        return f"rgb({r}, {g}, {b}, {a_txt})", kind
+    if kind == "rgb4-slash":
+        return f"rgb({r} {g} {b} / {a_txt})", kind
     if kind == "rgba":
         return f"rgba({r}, {g}, {b}, {a_txt})", kind
     if kind == "hsla":
